@@ -64,6 +64,16 @@ def tags_match(real, model):
     return True
 
 
+def operator_chain(src):
+    """length of the longest run `operand op operand op ...` of binary operators without brackets in one statement"""
+    best = 0
+    for stmt in src.split(";"):
+        if len(stmt) < 16000:
+            continue
+        best = max(best, len(re.findall(r"[A-Za-z0-9_!]\s*(?:\+|-|\*|/|%|&|\||\^|<<|>>)\s*[A-Za-z0-9_!]", stmt)))
+    return best
+
+
 def dense_inputs(rng, big):
     out = []
     n = 20000 if big else 600
@@ -173,6 +183,17 @@ def main():
     big_inputs.append(("token-limit", ("a " * 66000).encode(), None))
     big_inputs.append(("token-limit", ("a;" * 120000).encode(), "lexreject"))
     big_inputs.append(("near-token-limit", ("struct S;" * 21000).encode(), "accept"))
+    # long flat lists (no nesting): tens of thousands of statements, parameters, members, elements, arguments, fields and
+    # declarations in sources sparse enough to stay under the token limit; the parse tree links list items, and whoever
+    # walks a list (the XML dump, the header) must not need a stack as deep as the list is long
+    nl = 60000 if thorough else 30000
+    big_inputs.append(("long-statements", ("fn f()\n{\n" + "\tvariable_x = 1;\n" * nl + "}\n").encode(), "accept"))
+    big_inputs.append(("long-parameters", ("fn f(" + "parameter_x: i32, " * (nl // 2) + ")\n{\n}\n").encode(), "accept"))
+    big_inputs.append(("long-members", ("struct S\n{\n" + "\tmember_x: i32,\n" * (nl // 2) + "}\n").encode(), "accept"))
+    big_inputs.append(("long-elements", ("fn f()\n{\n\tx = [" + "element_x, " * nl + "];\n}\n").encode(), "accept"))
+    big_inputs.append(("long-arguments", ("fn f()\n{\n\tg(" + "argument_x, " * nl + ");\n}\n").encode(), "accept"))
+    big_inputs.append(("long-fields", ("fn f()\n{\n\tx = S { " + "field_x: a, " * (nl // 2) + "};\n}\n").encode(), "accept"))
+    big_inputs.append(("long-declarations", ("pub const CONSTANT_X: i32 = 1;\n" * (nl // 3)).encode(), "accept"))
     # known finding F26 probes: stack exhaustion on deep nesting
     probes = [("deep-paren", "fn f()\n{\n\tx = " + "(" * 30000 + "1" + ")" * 30000 + ";\n}\n")]
 
@@ -185,7 +206,9 @@ def main():
     midx = []
     for i, a in enumerate(ans):
         head, d = kv(a)
-        if head == "ok" and int(d["tokens"]) <= 200000:
+        # (the list-based Lean interpreter is quadratic in the number of nodes: the long flat lists are about the real
+        # front end surviving them, the node sequence of such lists is compared on the shorter dense inputs)
+        if head == "ok" and int(d["tokens"]) <= 200000 and not all_inputs[i][0].startswith("long-"):
             mreq.append("dparse\t" + d["kinds"])
             midx.append(i)
     mans = run_model(mreq)
@@ -204,6 +227,10 @@ def main():
                 src_text = b.decode("utf-8", "replace")
                 if h == "crash" and nesting_depth(src_text) >= 2000:
                     key = "crash:stack-exhaustion-on-nesting-depth>=2000"
+                elif h == "crash" and head == "ok" and operator_chain(src_text) >= 8000:
+                    # the parser survives (`dparse` answered), the XML dump does not: its recursion follows the left spine
+                    # of the operator chain, which is as deep as the chain is long
+                    key = "crash:xml-dump-stack-exhaustion-on-operator-chain>=8000"
                 else:
                     key = (aa[:160] if h == "panic" else "crash on " + cls)
                     key = re.sub(r"\s+", " ", key)
